@@ -113,7 +113,7 @@ func effect(c *ast.CallExpr) string {
 
 var harmless = map[string]bool{
 	"VerifPoint": true, "file.VerifPoint": true, "fmt.Sprintf": true, "err.Error": true, "closeIsolatedHandler": true,
-	"append": true, "len": true, "make": true, "[]byte": true, "NewControlFile": true, "tx.LogNotice": true,
+	"append": true, "len": true, "make": true, "EncodeEndingLineBreak": true, "[]byte": true, "NewControlFile": true, "tx.LogNotice": true,
 	"tx.UncommittedViews.Unset": true, "tx.CachedViews.Get": true, "fileInfo.LineBreak.Value": true,
 	"fileInfo.IdentifiedPath": true, "fileInfo.ExportOptions": true, "ctx.Err": true, "cancel": true,
 	"LockFilePath": true, "RLockFilePath": true, "TempFilePath": true, "GetTimeoutContext": true,
